@@ -1,4 +1,5 @@
-"""Positive examples for the order-of-effects rules G.6 / G.7 (analysed on every run: both must be reported here)."""
+"""Positive examples for the order-of-effects rules G.6 / G.7 and the validation-bypass rule G.10 (analysed on every run: all must be
+reported here)."""
 
 
 def indices_and_values(xs):
@@ -16,3 +17,25 @@ def load_all(paths, load):
         except ValueError:  # G.7: a failed load is dropped silently
             pass
     return out
+
+
+from pydantic import BaseModel, field_validator  # noqa: E402
+
+
+class Span(BaseModel):
+    start: float
+    end: float
+
+    @field_validator("end")
+    def _after_start(cls, v, info):
+        if v < info.data["start"]:
+            raise ValueError("end before start")
+        return v
+
+
+def fast_span(start, end):
+    return Span.model_construct(start=start, end=end)  # G.10: the ordering check never runs
+
+
+def shifted(span, dt):
+    return Span.model_copy(span, update={"end": span.end + dt})  # G.10: neither does it here
